@@ -55,6 +55,7 @@ func runNativeOnce(sc *Scenario) (string, bool) {
 		}
 		time.Sleep(time.Millisecond)
 	}
+	env.finalize()
 	if env.srv != nil {
 		env.srv.Close()
 	}
